@@ -2,7 +2,7 @@ SPECIFICATION MCSpec
 CONSTANTS
   Sess = {"a", "b", "c"}
   Bytes = {1, 2}
-  MaxXfer = 2
+  MaxXfer = 1
   Lifecycle = "documented"
   DoubleCount = FALSE
   FailedChoices = {"none", "last"}
